@@ -24,6 +24,7 @@ META = {
     "not_decided": "that tokio delivers independently of polling; equality of element values (T: Clone is assumed faithful)",
 }
 META["explanation"] += ' R05.9 the Vec the batched stream accumulates for one item is only ever grown (no clear / truncate / pop / drain of received diffs).'
+META["explanation"] += ' R05.11 every public mutator publishes before it returns (publication call post-dominates the structural change). R05.12 who-may-create-a-receiver: Sender::subscribe only in ObservableVector::subscribe (next to the snapshot), Receiver::resubscribe nowhere. R05.1 also accepts a diff built on two branches when both alternatives pair with the method.'
 
 VEC_T = "vector::ObservableVector<T>"
 TXN_T = "vector::transaction::ObservableVectorTransaction<'o, T>"
@@ -110,6 +111,7 @@ def run(ctx):
             check_mutator(ctx, f, pub, table)
     ctx.floor("R05.1", n, 20)
     r05_4(ctx)
+    r05_12(ctx)
     r05_5(ctx)
     r05_6(ctx)
     r05_8(ctx)
@@ -321,6 +323,26 @@ def r05_4(ctx):
     ctx.verdict(ok_sig and ok0 and ok1, "R05.4", f, "snapshot+receiver", b.line_at((blk, 10 ** 6)),
                 "subscribe(&self) builds the subscriber from self.values.clone() and self.sender.subscribe(): no mutator (&mut self) can interleave",
                 "subscribe does not pair a clone of the current contents with a fresh receiver of the vector's own sender (values: %s, rx: %s)" % (fmt(e0, 4), fmt(e1, 4)))
+
+
+def r05_12(ctx):
+    """the receiver a stream drains is the one created together with the snapshot: a receiver made anywhere else (`resubscribe`, a
+    second `Sender::subscribe`) starts at the channel's tail at that later moment and silently skips what was sent in between."""
+    F = ctx.facts
+    anchor = F.fn(IM, "vector::ObservableVector::<T>::subscribe")
+    n = 0
+    for f in F.find(crate=IM):
+        b = f.built
+        if not b:
+            continue
+        for blk, t in b.calls(r"broadcast::Sender::<.*>::subscribe$|broadcast::Receiver::<.*>::resubscribe$|broadcast::Sender::<.*>::new_receiver$"):
+            n += 1
+            root = root_fn(F, f)
+            what = (t.get("callee") or "").split("::")[-1]
+            ok = root is anchor and what == "subscribe"
+            ctx.verdict(ok, "R05.12", root, "receiver-made-with-snapshot:%s" % what, b.line_at((blk, 10 ** 6)), "the only receiver is created in subscribe(&self), next to the snapshot",
+                        "`%s` creates a channel receiver through `%s` away from the snapshot: diffs broadcast between the snapshot and this call are never delivered, and no Reset announces it" % (root.path, what))
+    ctx.floor("R05.12", n, 1)
 
 
 REVERSERS = r"Iterator>?::rev$|DoubleEndedIterator>?::next_back$|::reverse$|Vec::<.*>::(swap_remove|pop|remove)$|VecDeque::<.*>::pop_back$"
